@@ -138,7 +138,7 @@ def run(c):
     # a plain server): "a handler reads exactly the bytes the client was given" fails before any handler is reached
     cfails = vlib.read_ndjson(obsf + ".clientfail") if os.path.exists(obsf + ".clientfail") else []
     for cfl in [x for x in cfails if x["id"] < 0][:5]:
-        c.violation("clause RoundTrip violated: %s" % cfl["what"], replay_obj=dict(plan=dict(kind="early-pairs"), observed=cfl, failed=["RoundTrip"]))
+        c.violation("clause %s violated: %s" % (cfl.get("clause", "RoundTrip"), cfl["what"]), replay_obj=dict(plan=dict(kind="early-pairs"), observed=cfl, failed=["RoundTrip"]))
     cfails = [x for x in cfails if x["id"] >= 0]
     for cfl in cfails[:5]:
         pl = next(p for p in plan if p["id"] == cfl["id"])
